@@ -394,7 +394,7 @@ package plenccodec
 //@   allocbound[C04] len(data)
 //@   loop 1 invariant[C04] 0 <= i
 //@   loop 1 decreases int(count) - i
-//@   loop 2 invariant[C04] 0 < offset && offset <= len(data) && 0 <= i
+//@   loop 2 invariant[C04] 0 <= offset && offset <= len(data) && 0 <= i
 //@   loop 2 decreases loadi64(ptr + 8) - i
 //@   ensures[C04,C05] err == nil ==> 0 <= n && n <= len(data)
 
